@@ -160,6 +160,18 @@ def work_arraybase(item):
     return bad, n
 
 
+def literal_count(rec):
+    """the literal reading of the property's last sentence: a bare default generator called with (method, n, order) against
+    the rule LogRule builds for the SAME (method, n, order)"""
+    vlib.use_repo()
+    from numdifftools.finite_difference import LogRule
+    gen = build(rec['opts'])
+    with vlib.time_limit(30):
+        k = len(list(itertools.islice(gen(0.5, rec['m'], rec['n'], rec['o']), 5001)))
+    nr = len(LogRule(n=rec['n'], method=rec['m'], order=rec['o']).rule(gen.step_ratio))
+    return k, nr
+
+
 def check_ln_table(rep):
     table = {2.0: 23, 3.0: 15, 4.0: 12, 8.0: 8, 16.0: 6, 1.5: 39, 10.0: 7}
     for r, v in table.items():
@@ -189,6 +201,18 @@ def run(tier, rep):
     rnd.shuffle(arr)
     arr = arr[:(150 if tier == 'quick' else 1500)]
     out += vlib.pool_map(work_arraybase, [(r, seed + i) for i, r in enumerate(arr)])
+    # default counts against the rule's length for the same raw (method, n, order)
+    lit = [r for r in res.records if r['fam'] == 'count' and r['opts']['numsteps'] == 0 and r['opts']['extrap'] == 0 and r['opts']['cls'] in ('Min', 'Max')
+           and r['m'] != 'multicomplex']
+    nlit = 0
+    for r, (k, nr) in zip(lit, vlib.pool_map(literal_count, lit, chunksize=16)):
+        nlit += 1
+        name = '%sStepGenerator() called with (%s, n=%d, order=%d)' % (r['opts']['cls'], r['m'], r['n'], r['o'])
+        if (k, nr) != (r['count'], r['ruleterms']):
+            rep.violation('literal-count:model', dict(case=name, code=[k, nr], spec=[r['count'], r['ruleterms']]), '%s: %d steps / %d rule weights, specification %d / %d' % (name, k, nr, r['count'], r['ruleterms']))
+        elif k < nr:
+            key = 'default-count-below-rule:order-below-minimal' if r['o'] < r['rstep'] else 'default-count-below-rule:%s:n=%d:o=%d' % (r['m'], r['n'], r['o'])
+            rep.violation(key, dict(case=name, steps=k, rule_weights=nr), '%s yields %d steps, the rule for the same (method, n, order) has %d weights' % (name, k, nr))
     ncalls = 0
     for bad, n in out:
         ncalls += n
@@ -201,7 +225,7 @@ def run(tier, rep):
     nontriv = len({(r['fam'], repr(sorted(r['opts'].items())), r['m'], r['n'], r['o']) for r in res.records if r['count'] > 1})
     cov = dict(states=states, transitions=trans, traces_validated_against_impl=ncalls, exhaustive=True,
                samples=[res.records[0], [r for r in res.records if r['fam'] == 'value'][7]],
-               evaluations=ncalls, distinct_nontrivial=nontriv, families=dict(fams), generator_objects=len(items),
+               evaluations=ncalls, distinct_nontrivial=nontriv, families=dict(fams), generator_objects=len(items), literal_count_cells=nlit,
                rule='TLC enumerates generator option combinations in four families (count / value / cdefault / deriv); each case is one generator call compared step by step; non-trivial = more than one step',
                tlc=per)
     assum = ['EPS**(1/scale), log and round(16/ln r) are interpreted by the harness from the specification\'s symbolic terms',
